@@ -29,7 +29,7 @@ REGISTRY = [
      ["tools/replay_strace.sh", "findings/D5_unreachable_on_fault.rs", "verif_replay_d5", "openat2:error=EMFILE:when=3+"]),
     (r"create_file\.(returned_descriptor_is_inside_the_root|final_name_is_not_dot_or_dotdot)",
      ["tools/replay_real.sh", "findings/D8_create_file_dotdot_opath.rs", "verif_replay_d8"]),
-    (r"static\.walk_invariant|equals_the_kernel_walk_on_a_static_tree",
+    (r"(?<!p)static\.walk_invariant|equals_the_kernel_walk_on_a_static_tree",
      ["tools/replay_real.sh", "findings/D6_empty_path.rs", "verif_replay_d6"]),
     (r"openat2\.noctty_unless_opath",
      ["tools/replay_real.sh", "findings/D9_D10_cloexec_noctty.rs", "verif_replay_d9"]),
@@ -39,6 +39,14 @@ REGISTRY = [
      ["tools/replay_real.sh", "findings/D11_frozenfd_recursion.rs", "verif_replay_d11_error"]),
     (r"protected_symlinks_rule_applies_to_the_trailing_link_only|protected_symlinks_checked_before_a_trailing_link_is_read",
      ["tools/replay_real.sh", "findings/D12_protected_symlinks_intermediate.rs", "verif_replay_d12"]),
+    (r"partial_handle_is_verified_after_the_walk|creation_starts_from_a_directory_verified_against_the_root",
+     ["tools/replay_real.sh", "findings/D14_partial_handle_unverified.rs", "verif_replay_d14"]),
+    (r"an_ordinary_symlink_is_not_followed_onto_another_mount",
+     ["tools/replay_real.sh", "findings/D16_open_follow_ordinary_symlink.rs", "verif_replay_d16"]),
+    (r"a_magic_link_is_never_walked_as_an_ordinary_symlink",
+     ["tools/replay_real.sh", "findings/D17_procfs_magiclink_relative_body.rs", "verif_replay_d17"]),
+    (r"pstatic\.walk_invariant|equals_the_kernel_walk_and_final_component_table",
+     ["tools/replay_real.sh", "findings/D13_procfs_absolute_subpath.rs", "verif_replay_d13"]),
     (r"static GLOBAL_PROCFS_HANDLE",
      ["tools/replay_real.sh", "findings/D5c_global_procfs_init.rs", "verif_replay_d5c"]),
     (r"static PROTECTED_SYMLINKS_SYSCTL",
